@@ -195,3 +195,126 @@ class Stack:
         except Exception as e:
             return type(e).__name__
         return None
+
+
+class Net:
+    """N stacks on one simulated CAN bus: one global order of frames, every other stack receives every frame in that
+    order after its own latency (0 = handled re-entrantly inside the sender's send call), background passes run when a
+    stack asked to be woken (plus an optional scheduling latency)."""
+
+    def __init__(self, world, latency=lambda rng, src, dst, frame: 1000, tick_latency=lambda rng, i: 0, rng=None, loss=None):
+        import random
+        self.w = world
+        self.rng = rng or random.Random(0)
+        self.latency = latency
+        self.tick_latency = tick_latency
+        self.loss = loss                  # callable(frame_index, src, dst, frame) -> True if the frame is lost for dst
+        self.fifo = {}                    # stack idx -> list of (arrival, seqno, frame)
+        self.wake = {}                    # stack idx -> virtual time of the next pass (None = running now)
+        self.bus = []                     # (t, src, can_id, data, fd) in bus order
+        self.errors = []                  # (stack, where, exception name)
+        self.seq = 0
+        self.spins = {}
+        self.max_spins = 0
+        self.taps = []                    # callables(src_idx, frame) observing the bus
+        for s in world.stacks:
+            self.attach(s)
+
+    def attach(self, s):
+        self.fifo[s.idx] = []
+        self.wake[s.idx] = self.w.now
+        self.spins[s.idx] = 0
+        s.on_send = self._on_send
+
+    def _on_send(self, src, fr):
+        t, can_id, ext, data, fd = fr
+        k = len(self.bus)
+        self.bus.append((t, src.idx, can_id, list(data), fd))
+        for tap in self.taps:
+            tap(src.idx, fr)
+        for s in self.w.stacks:
+            if s.idx == src.idx or s.idx not in self.fifo:
+                continue
+            if self.loss and self.loss(k, src.idx, s.idx, fr):
+                continue
+            lat = self.latency(self.rng, src.idx, s.idx, fr)
+            q = self.fifo[s.idx]
+            if lat == 0 and not q:
+                self._deliver(s, can_id, data)       # re-entrant: handled before send returns
+            else:
+                arr = max(self.w.now + lat, q[-1][0] if q else 0)   # bus order per receiver is kept
+                self.seq += 1
+                q.append((arr, self.seq, can_id, list(data)))
+
+    def inject(self, dst_idx, can_id, data, lat=0):
+        """a frame from a node that is not one of the simulated stacks (reference peer, intruder)"""
+        q = self.fifo[dst_idx]
+        arr = max(self.w.now + lat, q[-1][0] if q else 0)
+        self.seq += 1
+        q.append((arr, self.seq, can_id, list(data)))
+
+    def _deliver(self, s, can_id, data):
+        e = s.notify(can_id, data)
+        if e:
+            self.errors.append((s.idx, 'notify', e))
+        if s.wq.tokens > 0:
+            self.wake[s.idx] = min(self.wake[s.idx], self.w.now) if self.wake[s.idx] is not None else self.w.now
+
+    def poke(self, s):
+        """an application call may have produced a wake token"""
+        if s.wq.tokens > 0:
+            self.wake[s.idx] = min(self.wake[s.idx], self.w.now)
+
+    def next_event(self):
+        best = None
+        for i, q in self.fifo.items():
+            if q and (best is None or (q[0][0], 0, q[0][1]) < best[0]):
+                best = ((q[0][0], 0, q[0][1]), 'rx', i)
+        for i, t in self.wake.items():
+            if self.w.stacks[i].dead:
+                continue
+            if t is not None and (best is None or (t, 1, i) < best[0]):
+                best = ((t, 1, i), 'tick', i)
+        return best
+
+    def step(self, horizon):
+        ev = self.next_event()
+        if ev is None or ev[0][0] > horizon:
+            return False
+        (t, _, _), kind, i = ev
+        if t > self.w.now:
+            self.w.clock.now = t
+        s = self.w.stacks[i]
+        if kind == 'rx':
+            _, _, can_id, data = self.fifo[i].pop(0)
+            self._deliver(s, can_id, data)
+        else:
+            r = s.tick()
+            if r[0] == 'exc':
+                self.errors.append((i, 'tick', r[1]))
+                self.wake[i] = None
+            elif r[0] == 'sleep':
+                self.spins[i] = 0
+                self.wake[i] = self.w.now + r[1] + self.tick_latency(self.rng, i)
+            elif r[0] == 'woken':
+                self.spins[i] = 0
+                self.wake[i] = self.w.now + self.tick_latency(self.rng, i)
+            else:
+                self.spins[i] += 1
+                self.max_spins = max(self.max_spins, self.spins[i])
+                self.wake[i] = self.w.now + 1      # a real pass takes time
+        return True
+
+    def run(self, duration, max_steps=200000, stop=None):
+        horizon = self.w.now + duration
+        n = 0
+        while n < max_steps and self.step(horizon):
+            n += 1
+            if stop and stop():
+                break
+        if not (stop and stop()) and self.w.now < horizon and n < max_steps:
+            self.w.clock.now = horizon
+        return n
+
+    def quiet(self):
+        return all(not q for q in self.fifo.values())
